@@ -6,6 +6,10 @@ import M3d.Lemmas.CollideCyl
 import M3d.Lemmas.CollideCone
 import M3d.Lemmas.CollideJordan
 import M3d.Lemmas.CollideJordan2
+import M3d.Lemmas.CollideRect2
+import M3d.Lemmas.CollideTriTri
+import M3d.Lemmas.CollideSegQuery
+import M3d.Lemmas.CollideProfBall
 import Mathlib.Algebra.Order.Field.Rat
 /-!
 # C07 — Colliders report consistent ray and ball collisions
@@ -776,6 +780,291 @@ example :
     ballSphereSpec (25 : ℚ) 2 3 = true ∧ ballSphereSpec (25 : ℚ) 2 (5/2) = false ∧
     ballSphereSpec (1 : ℚ) 2 1 = true ∧ ballSphereSpec (1 : ℚ) 2 (1/2) = false ∧ ballSphereSpec (0 : ℚ) 2 3 = true := by
   refine ⟨?_, ?_, ?_, ?_, ?_⟩ <;> decide +kernel
+
+/-! ## (6) box and triangle queries
+
+"… segment, box and triangle queries answer 'touching' exactly when the surface and the query shape actually
+intersect."  Models: `M3d/Model/CollideQuery.lean`. -/
+
+/-- **`rect_touches_iff_segment2d_spec`** — the decidable, tolerance-free predicate `seg2RectSpec` that the `rect2x`
+correspondence prints is "some point `s0 + λ(s1 - s0)`, `0 ≤ λ ≤ 1`, of the segment lies in the closed box
+`[lo, hi]`".  (No hypotheses: degenerate segments and boxes included.) -/
+theorem rect_touches_iff_segment2d_spec (s0 s1 lo hi : V2 K) :
+    seg2RectSpec s0 s1 lo hi = true ↔ ∃ lam, 0 ≤ lam ∧ lam ≤ 1 ∧ InRect2 lo hi (segPoint2 s0 s1 lam) :=
+  seg2RectSpec_iff s0 s1 lo hi
+
+/-- **`rect_touches_iff_segment2d`** — the Go method `model2d.Segment.RectCollision` (bounding-box rejection, an end
+point inside, a crossing with one of the four sides found by `Segment.SegmentCollision` / `rayCollision`) answers
+"touching" iff some point of the segment lies in the closed box: for a segment with distinct end points, a
+rectangle with positive width and height, `eps > 0`, and provided no side of the rectangle that is not exactly
+parallel to the segment is rejected by the library's near-parallel test (`|det| < 1e-8·|v|·|d|`).  (A point moving
+along the segment from outside to inside the box passes through a side — `first_entry`.) -/
+theorem rect_touches_iff_segment2d {sqrtF : K → K} (hs : SqrtOK sqrtF) (eps : K) (heps : 0 < eps)
+    (s0 s1 lo hi : V2 K) (hv : (s1.sub s0).dot (s1.sub s0) ≠ 0) (hx : lo.x < hi.x) (hy : lo.y < hi.y)
+    (hnp : ∀ q ∈ rectSides lo hi, segDet s0 s1 (q.2.sub q.1) ≠ 0 → ¬ segNearPar sqrtF eps s0 s1 (q.2.sub q.1)) :
+    seg2Rect sqrtF eps s0 s1 lo hi = true ↔ ∃ lam, 0 ≤ lam ∧ lam ≤ 1 ∧ InRect2 lo hi (segPoint2 s0 s1 lam) :=
+  seg2Rect_iff hs eps heps s0 s1 lo hi hv hx hy hnp
+
+/-- **`rect_bounds_test_iff`** — the bounds test of `joinedMultiCollider.RectCollision`
+(`min := r.MinVal.Max(j.min); max := r.MaxVal.Min(j.max); min.Min(max) != min → false`) lets the query pass iff the
+closed query box and the closed bounding box of the node have a point in common — *also when that common part has
+no area* (a node that holds collinear axis-aligned segments has a bounding box without area). -/
+theorem rect_bounds_test_iff (lo hi jlo jhi : V2 K) :
+    rectOverlap2 lo hi jlo jhi = true ↔ ∃ x, InRect2 lo hi x ∧ InRect2 jlo jhi x :=
+  rectOverlap2_iff lo hi jlo jhi
+
+/-- **`mesh_rect_touches_iff`** — the 2-D mesh colliders (`MeshToCollider`, `GroupedSegmentsToCollider`,
+`BVHToCollider`: any binary hierarchy `t` of `joinedMultiCollider`s over the segments, each node with the bounds
+`NewJoinedCollider` computes and the bounds test above) answer `RectCollision(lo, hi)` = true **iff some segment of
+the mesh has a point in the closed box** — whatever the hierarchy.  Hypotheses per segment as in
+`rect_touches_iff_segment2d`. -/
+theorem mesh_rect_touches_iff {sqrtF : K → K} (hs : SqrtOK sqrtF) (eps : K) (heps : 0 < eps) (t : BTree (Seg K))
+    (lo hi : V2 K) (hx : lo.x < hi.x) (hy : lo.y < hi.y)
+    (hnd : ∀ S ∈ t.leaves, (S.2.sub S.1).dot (S.2.sub S.1) ≠ 0)
+    (hnp : ∀ S ∈ t.leaves, ∀ q ∈ rectSides lo hi, segDet S.1 S.2 (q.2.sub q.1) ≠ 0 →
+      ¬ segNearPar sqrtF eps S.1 S.2 (q.2.sub q.1)) :
+    meshRect2 sqrtF eps t lo hi = true ↔
+      ∃ S ∈ t.leaves, ∃ lam, 0 ≤ lam ∧ lam ≤ 1 ∧ InRect2 lo hi (segPoint2 S.1 S.2 lam) := by
+  unfold meshRect2
+  rw [treeRect2_iff (fun s : Seg K => s.1.min s.2) (fun s => s.1.max s.2) (fun s => seg2Rect sqrtF eps s.1 s.2)
+    (fun S x => ∃ lam, 0 ≤ lam ∧ lam ≤ 1 ∧ x = segPoint2 S.1 S.2 lam) t lo hi]
+  · constructor
+    · rintro ⟨S, hS, h⟩
+      exact ⟨S, hS, (seg2Rect_iff hs eps heps S.1 S.2 lo hi (hnd S hS) hx hy (hnp S hS)).1 h⟩
+    · rintro ⟨S, hS, h⟩
+      exact ⟨S, hS, (seg2Rect_iff hs eps heps S.1 S.2 lo hi (hnd S hS) hx hy (hnp S hS)).2 h⟩
+  · rintro S _ x ⟨lam, h0, h1, rfl⟩
+    exact segPoint2_in_bounds S.1 S.2 lam h0 h1
+  · intro S hS h
+    obtain ⟨lam, h0, h1, hb⟩ := (seg2Rect_iff hs eps heps S.1 S.2 lo hi (hnd S hS) hx hy (hnp S hS)).1 h
+    exact ⟨_, ⟨lam, h0, h1, rfl⟩, hb⟩
+
+/-- **`triangle_collisions_iff`** (`Triangle.TriangleCollisions`, the computation between the co-planarity test and
+the vertex filter: the line `o + t·d` of the solutions of `a·v1 + b·v2 + t[0] = c·v3 + d·v4 + t1[0]` through the
+inverse of `[v1 v2 -v3]` resp. `[v1 v2 -v4]`, the two calls of `findContainedRange`, the intersection of the two
+parameter ranges).  For two triangles whose planes are not parallel:
+* if it yields the end points `(p1, p2)`, then **the common points of the two closed triangles are exactly the points
+  of the segment `p1 p2`**, and `p1 ≠ p2` when the second triangle has an area;
+* if it yields nothing, the two triangles have **at most one point in common**.
+In particular two triangles that share exactly one vertex and cut through each other along a segment starting at
+that vertex are reported with that segment. -/
+theorem triangle_collisions_iff (a b c a' b' c' : V3 K)
+    (hnp : ((b.sub a).cross (c.sub a)).dot (b'.sub a') ≠ 0 ∨ ((b.sub a).cross (c.sub a)).dot (c'.sub a') ≠ 0) :
+    (∀ p1 p2, triTriCore a b c a' b' c' = some (p1, p2) →
+      (∀ x, (InTri (a, b, c) x ∧ InTri (a', b', c') x) ↔
+        ∃ s, 0 ≤ s ∧ s ≤ 1 ∧ x = p1.add ((p2.sub p1).scale s)) ∧
+      (((b'.sub a').cross (c'.sub a')).dot ((b'.sub a').cross (c'.sub a')) ≠ 0 → p1 ≠ p2)) ∧
+    (triTriCore a b c a' b' c' = none →
+      ∀ x y, InTri (a, b, c) x ∧ InTri (a', b', c') x → InTri (a, b, c) y ∧ InTri (a', b', c') y → x = y) :=
+  ⟨fun p1 p2 h => ⟨fun x => triTriCore_some a b c a' b' c' hnp p1 p2 h x,
+      fun hnd => triTriCore_ne a b c a' b' c' hnp hnd p1 p2 h⟩,
+   fun h x y hx hy => triTriCore_none a b c a' b' c' hnp h x y hx hy⟩
+
+/-- **`triangle_collisions_report`** — what the method makes of that computation.  A segment is returned only as
+`NewSegment(p1, p2)` of the computed end points, and then the two triangles have at most one common vertex, both have
+an area, are not (nearly) co-planar — so their planes are not parallel and `triangle_collisions_iff` applies.
+Nothing is returned in exactly these situations: two or three common vertices (neighbours across an edge, see
+`triangle_shared_edge_only`); a triangle without area; (nearly) co-planar triangles, `|n1·n2| > 1 - 1e-8`, as
+documented; the computation yields nothing; or the computed segment is shorter than `1e-8` times both `|v1|` and
+`|v2|` ("don't report collisions at a vertex").  Triangles in exactly parallel planes are always rejected by the
+co-planarity test. -/
+theorem triangle_collisions_report {sqrtF : K → K} (hs : SqrtOK sqrtF) (eps : K) (heps : 0 < eps) (t t1 : Tri K) :
+    (∀ s, triTri sqrtF eps t t1 = some s →
+      triInCommon t t1 ≤ 1 ∧ (triCross t).dot (triCross t) ≠ 0 ∧ (triCross t1).dot (triCross t1) ≠ 0 ∧
+      ¬ triNearCoplanar sqrtF eps t t1 ∧
+      ((triCross t).dot (t1.2.1.sub t1.1) ≠ 0 ∨ (triCross t).dot (t1.2.2.sub t1.1) ≠ 0) ∧
+      ∃ p1 p2, triTriCore t.1 t.2.1 t.2.2 t1.1 t1.2.1 t1.2.2 = some (p1, p2) ∧ s = newSegment p1 p2 ∧
+        (s = (p1, p2) ∨ s = (p2, p1))) ∧
+    (triTri sqrtF eps t t1 = none →
+      2 ≤ triInCommon t t1 ∨ (triCross t).dot (triCross t) = 0 ∨ (triCross t1).dot (triCross t1) = 0 ∨
+      triNearCoplanar sqrtF eps t t1 ∨ triTriCore t.1 t.2.1 t.2.2 t1.1 t1.2.1 t1.2.2 = none ∨
+      ∃ p1 p2, triTriCore t.1 t.2.1 t.2.2 t1.1 t1.2.1 t1.2.2 = some (p1, p2) ∧
+        p1.dist sqrtF p2 < (t.2.1.sub t.1).norm sqrtF * eps ∧ p1.dist sqrtF p2 < (t.2.2.sub t.1).norm sqrtF * eps) ∧
+    ((triCross t).dot (triCross t) ≠ 0 → (triCross t1).dot (triCross t1) ≠ 0 →
+      (triCross t).dot (t1.2.1.sub t1.1) = 0 → (triCross t).dot (t1.2.2.sub t1.1) = 0 →
+      triNearCoplanar sqrtF eps t t1) := by
+  refine ⟨fun s h => ?_, (triTri_cases sqrtF eps t t1).2, triNearCoplanar_of_parallel hs eps heps t t1⟩
+  obtain ⟨g0, g1, g2, g3, p1, p2, hc, hsn⟩ := (triTri_cases sqrtF eps t t1).1 s h
+  refine ⟨g0, g1, g2, g3, triTri_some_common hs eps heps t t1 s h, p1, p2, hc, hsn, ?_⟩
+  rw [hsn]; unfold newSegment; split
+  · exact Or.inl rfl
+  · exact Or.inr rfl
+
+/-- **`triangle_shared_edge_only`** — the early exit for neighbours: two triangles `(a, b, c)`, `(a, b, c')` with a
+common edge whose planes differ have only points of that edge in common (so nothing but the shared edge is lost
+by `inCommon > 1 → nil`).  One common *vertex* does not have this property — see the example below. -/
+theorem triangle_shared_edge_only (a b c c' : V3 K) (hnp : ((b.sub a).cross (c.sub a)).dot (c'.sub a) ≠ 0)
+    (x : V3 K) (h1 : InTri (a, b, c) x) (h2 : InTri (a, b, c') x) :
+    ∃ s, 0 ≤ s ∧ s ≤ 1 ∧ x = a.add ((b.sub a).scale s) :=
+  shared_edge_only a b c c' hnp x h1 h2
+
+/-- **`mesh_triangle_collisions`** — the 3-D mesh colliders (`MeshToCollider`, `GroupedTrianglesToCollider`,
+`BVHToCollider`: any binary hierarchy of `joinedMultiCollider`s over the triangles, with the bounds of
+`NewJoinedCollider` and the bounds test `t.Min().Max(j.min) ≤ t.Max().Min(j.max)`) return for a query triangle `q`
+**the concatenation of what the mesh triangles return**, in the order of the hierarchy — no sub-tree that holds a
+triangle reporting a segment is pruned (a reported segment consists of common points, which lie in the bounding
+boxes of both triangles).  So the number of segments is the number of mesh triangles that report one. -/
+theorem mesh_triangle_collisions {sqrtF : K → K} (hs : SqrtOK sqrtF) (eps : K) (heps : 0 < eps)
+    (t : BTree (Tri K)) (q : Tri K) :
+    meshTriTri sqrtF eps t q = t.leaves.flatMap (fun T => (triTri sqrtF eps T q).toList) := by
+  unfold meshTriTri
+  apply treeTriTri_eq triMin triMax _ (fun T x => InTri T x) (triMin q) (triMax q) t
+  · intro T _ x hx; exact inTri_in_bounds T x hx
+  · intro T _ hne
+    cases hq : triTri sqrtF eps T q with
+    | none => rw [hq] at hne; exact absurd rfl hne
+    | some s =>
+      have hnp := triTri_some_common hs eps heps T q s hq
+      obtain ⟨_, _, _, _, p1, p2, hc, _⟩ := (triTri_cases sqrtF eps T q).1 s hq
+      have hcom := (triTriCore_some T.1 T.2.1 T.2.2 q.1 q.2.1 q.2.2 hnp p1 p2 hc p1).2
+        ⟨0, le_rfl, zero_le_one, by simp [V3.add, V3.scale]⟩
+      exact ⟨p1, hcom.1, inTri_in_bounds q p1 hcom.2⟩
+
+/-- **`joined_tree_any`** — every Boolean query of `joinedMultiCollider` (`SegmentCollision`, `RectCollision`, 2-D
+and 3-D: the node's bounds test, then the children in order) over any hierarchy is the disjunction of the leaves'
+answers, provided no bounds test rejects a node holding a leaf that answers true. -/
+theorem joined_tree_any {L : Type} (gate : BTree L → Bool) (leafQ : L → Bool) (t : BTree L)
+    (hadm : ∀ n : BTree L, (∀ l ∈ n.leaves, l ∈ t.leaves) → ∀ l ∈ n.leaves, leafQ l = true → gate n = true) :
+    treeAny gate leafQ t = true ↔ ∃ l ∈ t.leaves, leafQ l = true :=
+  treeAny_iff gate leafQ t hadm
+
+/-- **`rect_bounds_test_iff_3d`** — the bounds test of the 3-D `joinedMultiCollider.RectCollision` passes iff the closed
+query box and the node's closed bounding box share a point, also when the common part has no volume (nodes holding
+co-planar axis-aligned triangles).  With `joined_tree_any`: the 3-D mesh colliders' `RectCollision` is "some triangle's
+`RectCollision`" as soon as a triangle that answers true has a point in the box (`Triangle.RectCollision` itself is not
+modelled; the harness compares the meshes' answers with an exact clipping, `c07:ball-touches/mesh-rect`). -/
+theorem rect_bounds_test_iff_3d (lo hi jlo jhi : V3 K) :
+    rectOverlap3 lo hi jlo jhi = true ↔ ∃ x, InBox lo hi x ∧ InBox jlo jhi x :=
+  rectOverlap3_iff lo hi jlo jhi
+
+/-- **`segment_touches_iff_triangle`** — `Triangle.SegmentCollision(s0, s1)` answers "touching" iff the segment is not
+rejected as near-parallel to the triangle's plane, is not exactly parallel to it, and some point `s0 + t(s1 - s0)`,
+`0 ≤ t ≤ 1`, is a point `a + u(b-a) + v(c-a)`, `u, v ≥ 0`, `u + v ≤ 1`, of the triangle. -/
+theorem segment_touches_iff_triangle (sqrtF : K → K) (eps : K) (a b c s0 s1 : V3 K) :
+    triSegment sqrtF eps a b c s0 s1 = true ↔
+      ¬ triNearPar sqrtF eps a b c (s1.sub s0) ∧ triDet a b c (s1.sub s0) ≠ 0 ∧
+        ∃ t u v, TriEq a b c s0 (s1.sub s0) t u v ∧ 0 ≤ u ∧ 0 ≤ v ∧ u + v ≤ 1 ∧ 0 ≤ t ∧ t ≤ 1 :=
+  triSegment_iff sqrtF eps a b c s0 s1
+
+/-- **`segment_touches_iff_segment2d`** — `model2d.Segment.SegmentCollision(q)` answers "touching" iff the two
+segments are not parallel, are not rejected as near-parallel, and cross: `s0 + a(s1 - s0) = q0 + t(q1 - q0)` with
+`0 ≤ a ≤ 1`, `0 ≤ t ≤ 1` (distinct end points, `eps > 0`). -/
+theorem segment_touches_iff_segment2d {sqrtF : K → K} (hs : SqrtOK sqrtF) (eps : K) (heps : 0 < eps)
+    (s0 s1 q0 q1 : V2 K) (hv : (s1.sub s0).dot (s1.sub s0) ≠ 0) (hq : (q1.sub q0).dot (q1.sub q0) ≠ 0) :
+    seg2Segment sqrtF eps s0 s1 q0 q1 = true ↔
+      segDet s0 s1 (q1.sub q0) ≠ 0 ∧ ¬ segNearPar sqrtF eps s0 s1 (q1.sub q0) ∧
+        ∃ t a, SegEq s0 s1 q0 (q1.sub q0) t a ∧ 0 ≤ a ∧ a ≤ 1 ∧ 0 ≤ t ∧ t ≤ 1 :=
+  seg2Segment_iff hs eps heps s0 s1 q0 q1 hv hq
+
+/-- **`segment_bounds_test_sound`** — the bounds test of `joinedMultiCollider.SegmentCollision`
+(`rayCollisionWithBounds` along the segment; rejected iff `maxFrac < minFrac || maxFrac < 0 || minFrac > 1`) admits
+every segment that has a point, `0 ≤ t ≤ 1`, within the bounds (any number of axes: 2-D and 3-D). -/
+theorem segment_bounds_test_sound (axes : List (Ax K)) (t : K) (h0 : 0 ≤ t) (h1 : t ≤ 1)
+    (hin : ∀ a ∈ axes, AxIn a t) : segAdmits axes = true :=
+  segAdmits_of_point axes t h0 h1 hin
+
+/-- **`mesh_segment_touches_iff`** — the 3-D mesh colliders (any binary hierarchy of `joinedMultiCollider`s over the
+triangles, bounds of `NewJoinedCollider`, the bounds test above at every node) answer `SegmentCollision(s0, s1)` = true
+**iff some triangle of the mesh does** — and that is `segment_touches_iff_triangle`.  No hypotheses. -/
+theorem mesh_segment_touches_iff (sqrtF : K → K) (eps : K) (t : BTree (Tri K)) (s0 s1 : V3 K) :
+    meshSegment3 sqrtF eps t s0 s1 = true ↔
+      ∃ T ∈ t.leaves, triSegment sqrtF eps T.1 T.2.1 T.2.2 s0 s1 = true := by
+  unfold meshSegment3
+  apply treeAny_iff
+  intro n _ T hT h
+  obtain ⟨_, _, τ, u, v, he, hu, hv, huv, h0, h1⟩ := (triSegment_iff sqrtF eps T.1 T.2.1 T.2.2 s0 s1).1 h
+  apply segAdmits_of_point _ τ h0 h1
+  rw [axes3_in]
+  have hP : InTri T (s0.along (s1.sub s0) τ) := ⟨u, v, hu, hv, huv, (triEq_iff_point _ _ _ _ _ _ _ _).1 he⟩
+  obtain ⟨⟨c1, c2⟩, ⟨c3, c4⟩, c5, c6⟩ := inTri_in_bounds T _ hP
+  have m := btMin3_le triMin n T hT
+  have M := le_btMax3 triMax n T hT
+  exact ⟨⟨le_trans m.1 c1, le_trans c2 M.1⟩, ⟨le_trans m.2.1 c3, le_trans c4 M.2.1⟩,
+    le_trans m.2.2 c5, le_trans c6 M.2.2⟩
+
+/-- **`mesh_segment_touches_iff_2d`** — the same for the 2-D mesh colliders: `SegmentCollision(q)` is true iff some
+segment of the mesh answers true (`segment_touches_iff_segment2d`). -/
+theorem mesh_segment_touches_iff_2d {sqrtF : K → K} (hs : SqrtOK sqrtF) (eps : K) (heps : 0 < eps)
+    (t : BTree (Seg K)) (q0 q1 : V2 K) (hq : (q1.sub q0).dot (q1.sub q0) ≠ 0)
+    (hnd : ∀ S ∈ t.leaves, (S.2.sub S.1).dot (S.2.sub S.1) ≠ 0) :
+    meshSegment2 sqrtF eps t q0 q1 = true ↔ ∃ S ∈ t.leaves, seg2Segment sqrtF eps S.1 S.2 q0 q1 = true := by
+  unfold meshSegment2
+  apply treeAny_iff
+  intro n hn S hS h
+  obtain ⟨_, _, τ, a, he, ha0, ha1, h0, h1⟩ :=
+    (seg2Segment_iff hs eps heps S.1 S.2 q0 q1 (hnd S (hn S hS)) hq).1 h
+  apply segAdmits_of_point _ τ h0 h1
+  rw [axes2_in]
+  have hpt : q0.along (q1.sub q0) τ = segPoint2 S.1 S.2 a := by
+    obtain ⟨e1, e2⟩ := he
+    simp only [V2.along, segPoint2, V2.add, V2.scale, V2.sub, V2.mk.injEq] at e1 e2 ⊢
+    exact ⟨e1.symm, e2.symm⟩
+  rw [hpt]
+  obtain ⟨c1, c2, c3, c4⟩ := segPoint2_in_bounds S.1 S.2 a ha0 ha1
+  have m := btMin2_le (fun s : Seg K => s.1.min s.2) n S hS
+  have M := le_btMax2 (fun s : Seg K => s.1.max s.2) n S hS
+  exact ⟨le_trans m.1 c1, le_trans c2 M.1, le_trans m.2 c3, le_trans c4 M.2⟩
+
+/-- **`profile_ball_touches_iff`** (`profileCollider.SphereCollision`: the face distance, the 2-D circle query with the
+radius `√(r² - faceDistance²)`, the face test `absFaceDist < r && Solid2D.Contains`).  Let `S2` be the outline the
+2-D collider stands for — `CircleCollision(q, ρ)` answers "some point of `S2` is at distance `< ρ`" —, `D` the 2-D
+solid (`Solid2D.Contains`), and assume that the outline bounds the solid: a segment from a point of `D` to a point
+outside `D` meets `S2`.  Then for `r ≥ 0` the method answers "touching" **iff the surface of the extrusion — the walls
+`S2 × [minZ, maxZ]` or one of the two faces `D × {minZ}`, `D × {maxZ}` — has a point at distance `< r` from `c`**; and
+the method equals its square-root-free form `profBallSpec` (what the `profballx` correspondence prints). -/
+theorem profile_ball_touches_iff {sqrtF : K → K} (hs : SqrtOK sqrtF) (S2 D : V2 K → Prop)
+    (circ circSq : V2 K → K → Bool) (solid2 : V2 K → Bool) (minZ maxZ : K) (hz : minZ ≤ maxZ) (c : V3 K) (r : K)
+    (hr : 0 ≤ r) (hc : ∀ q ρ, 0 ≤ ρ → circ q ρ = circSq q (ρ * ρ))
+    (hcirc : ∀ q Q, circSq q Q = true ↔ ∃ p, S2 p ∧ p.distSq q < Q) (hsolid : ∀ q, solid2 q = true ↔ D q)
+    (hcross : ∀ q q', D q → ¬ D q' → ∃ lam, 0 ≤ lam ∧ lam ≤ 1 ∧ S2 (q'.add ((q.sub q').scale lam))) :
+    profSphere sqrtF circ solid2 minZ maxZ c r = profBallSpec circSq solid2 minZ maxZ c r ∧
+    (profSphere sqrtF circ solid2 minZ maxZ c r = true ↔ ProfSurfaceNear S2 D minZ maxZ c (r * r)) := by
+  have e := profSphere_eq_spec hs circ circSq solid2 minZ maxZ c r hr hc
+  refine ⟨e, ?_⟩
+  rw [e]
+  exact profBallSpec_iff S2 D circSq solid2 minZ maxZ hz c r hr hcirc hsolid hcross
+
+/-- … instantiated for an outline given by segments (`ProfileCollider(MeshToCollider(mesh2d), minZ, maxZ)`, the 2-D
+circle query being "some segment's `CircleCollision`", `joined_ball_any`): `S2` = the points of the segments. -/
+theorem profile_ball_touches_iff_mesh {sqrtF : K → K} (hs : SqrtOK sqrtF) (segs : List (Seg K)) (D : V2 K → Prop)
+    (solid2 : V2 K → Bool) (minZ maxZ : K) (hz : minZ ≤ maxZ) (c : V3 K) (r : K) (hr : 0 ≤ r)
+    (hnd : ∀ S ∈ segs, (S.2.sub S.1).dot (S.2.sub S.1) ≠ 0) (hsolid : ∀ q, solid2 q = true ↔ D q)
+    (hcross : ∀ q q', D q → ¬ D q' → ∃ lam, 0 ≤ lam ∧ lam ≤ 1 ∧
+      ∃ S ∈ segs, ∃ mu, 0 ≤ mu ∧ mu ≤ 1 ∧ q'.add ((q.sub q').scale lam) = segPoint2 S.1 S.2 mu) :
+    profSphere sqrtF (fun q ρ => segs.any fun S => seg2Circle sqrtF S.1 S.2 q ρ) solid2 minZ maxZ c r = true ↔
+      ProfSurfaceNear (fun p => ∃ S ∈ segs, ∃ mu, 0 ≤ mu ∧ mu ≤ 1 ∧ p = segPoint2 S.1 S.2 mu) D minZ maxZ c (r * r) := by
+  refine (profile_ball_touches_iff hs _ D _ (fun q Q => segs.any fun S => seg2BallSpec S.1 S.2 q Q) solid2 minZ maxZ
+    hz c r hr ?_ ?_ hsolid hcross).2
+  · intro q ρ hρ
+    rw [Bool.eq_iff_iff]
+    simp only [List.any_eq_true]
+    refine exists_congr fun S => and_congr_right fun hS => ?_
+    rw [seg2Circle_iff hs S.1 S.2 q ρ hρ (hnd S hS), seg2BallSpec_iff S.1 S.2 q (ρ * ρ) (hnd S hS)]
+    rfl
+  · intro q Q
+    simp only [List.any_eq_true]
+    constructor
+    · rintro ⟨S, hS, h⟩
+      obtain ⟨mu, m0, m1, hlt⟩ := (seg2BallSpec_iff S.1 S.2 q Q (hnd S hS)).1 h
+      exact ⟨_, ⟨S, hS, mu, m0, m1, rfl⟩, hlt⟩
+    · rintro ⟨p, ⟨S, hS, mu, m0, m1, rfl⟩, hlt⟩
+      exact ⟨S, hS, (seg2BallSpec_iff S.1 S.2 q Q (hnd S hS)).2 ⟨mu, m0, m1, hlt⟩⟩
+
+/-- non-vacuity / the corner case: `t = (0,0,0),(1,0,0),(0,1,0)` and `t1 = (0,0,0),(1,1,1),(1,1,-1)` share exactly
+the vertex `(0,0,0)` and cut through each other: the computation reports the segment `(0,0,0) – (1/2,1/2,0)`;
+moved apart (`t1` shifted by `(0,0,2)`) it reports nothing; the box query across the bottom side of the unit square
+split into four pieces per side: the flat node holding two pieces of the bottom side is visited. -/
+example :
+    (triTriCore (⟨0, 0, 0⟩ : V3 ℚ) ⟨1, 0, 0⟩ ⟨0, 1, 0⟩ ⟨0, 0, 0⟩ ⟨1, 1, 1⟩ ⟨1, 1, -1⟩).map
+        (fun p => (p.1.x, p.1.y, p.1.z, p.2.x, p.2.y, p.2.z)) = some (0, 0, 0, 1/2, 1/2, 0) ∧
+    (triTriCore (⟨0, 0, 0⟩ : V3 ℚ) ⟨1, 0, 0⟩ ⟨0, 1, 0⟩ ⟨0, 0, 2⟩ ⟨1, 1, 3⟩ ⟨1, 1, 1⟩).isNone = true ∧
+    triInCommon ((⟨0, 0, 0⟩, ⟨1, 0, 0⟩, ⟨0, 1, 0⟩) : Tri ℚ) (⟨0, 0, 0⟩, ⟨1, 1, 1⟩, ⟨1, 1, -1⟩) = 1 ∧
+    rectOverlap2 (⟨1/10, -1/20⟩ : V2 ℚ) ⟨3/20, 1/20⟩ ⟨0, 0⟩ ⟨1/2, 0⟩ = true ∧
+    seg2RectSpec (⟨0, 0⟩ : V2 ℚ) ⟨1/4, 0⟩ ⟨1/10, -1/20⟩ ⟨3/20, 1/20⟩ = true ∧
+    seg2RectSpec (⟨1/4, 0⟩ : V2 ℚ) ⟨1/2, 0⟩ ⟨1/10, -1/20⟩ ⟨3/20, 1/20⟩ = false ∧
+    meshRect2 (fun x : ℚ => x) (1/100000000)
+      (.node (.leaf (⟨0, 0⟩, ⟨1/4, 0⟩)) (.leaf (⟨1/4, 0⟩, ⟨1/2, 0⟩))) ⟨1/10, -1/20⟩ ⟨3/20, 1/20⟩ = true := by
+  refine ⟨?_, ?_, ?_, ?_, ?_, ?_, ?_⟩ <;> decide +kernel
 
 /-! ## non-vacuity -/
 
